@@ -23,6 +23,10 @@ FIELDS = [
     ("&'a mut T", "<'a, T>", "", "<'static, u16>", "::std::boxed::Box::leak(::std::boxed::Box::new(5u16))", "::std::boxed::Box::leak(::std::boxed::Box::new(6u16))"),
     ("&'a T", "<'a, T: 'a>", "", "<'static, i64>", "&7i64", "&8i64"),
     ("::std::boxed::Box<T>", "<T>", "", "<u16>", "::std::boxed::Box::new(1u16)", "::std::boxed::Box::new(2u16)"),
+    # the parameter relaxed in the where-clause only: the impls must carry the relaxation too
+    ("::std::boxed::Box<T>", "<T>", "where T: ?::core::marker::Sized", "<str>", "::std::boxed::Box::from(\"q\")", "::std::boxed::Box::from(\"rr\")"),
+    ("&'a T", "<'a, T>", "where T: ?Sized + 'a", "<'static, [u8]>", "&[1u8, 2][..]", "&[3u8][..]"),
+    ("::std::rc::Rc<T>", "<T>", "where T: ?Sized, T: ::core::fmt::Debug", "<[u8]>", "::std::rc::Rc::from(&[1u8, 2][..])", "::std::rc::Rc::from(&[9u8][..])"),
     ("*const T", "<T>", "", "<i64>", "::core::ptr::null::<i64>()", "::core::ptr::NonNull::<i64>::dangling().as_ptr() as *const i64"),
 ]
 
@@ -44,7 +48,9 @@ def accept_cases():
                     # concrete field type of the instantiation
                     conc = {"<u16>": tyi.replace("T", "u16"), "<i64>": "i64", "<u8, bool>": "(u8, bool)", "<3>": "[u8; 3]",
                             "<'static, u8>": "&'static [u8]", "<str>": "::std::option::Option<::std::boxed::Box<str>>"}.get(inst, tyi)
-                    if ty in ("&'a mut T", "&'a T", "*const T"):
+                    if "?Sized" in w or "?::core::marker::Sized" in w:
+                        conc = tyi.replace("<T>", inst.replace("'static, ", "")) if "<T>" in tyi else tyi.replace("T", inst.strip("<>").split(", ")[-1])
+                    elif ty in ("&'a mut T", "&'a T", "*const T"):
                         conc = tyi.replace("T", inst.strip("<>").split(", ")[-1])
                     body = [f"let mut x: Ty{inst} = {ctor};",
                             f"let p1 = (&*x) as *const {conc}; let p2 = (&{acc}) as *const {conc};",
@@ -180,7 +186,7 @@ def run(rep, tier, rng):
     o2 = next(o for o, m in zip(obs, meta) if m[0] == 2 and m[2] == ["Deref"])
     rep.canary = judge_refusal(o2, 1, ["Deref"], meta[o2["id"]][3]) is not None
     rep.exhaustive = True
-    rep.rule = ("complete over the shape table: 15 single-field shapes (tuple/named, generics with bounds and where-clauses, const "
+    rep.rule = (f"complete over the shape table: {len(FIELDS)} single-field shapes (tuple/named, generics with bounds and where-clauses (also `T: ?Sized` given only there), const "
                 "and lifetime parameters, ?::core::marker::Sized, unsized-capable field types) x entry x {Deref, Deref+DerefMut}, compiled with "
                 "the real proc-macro and observed at run time (address identity, TypeId of Target, write-through); and arities "
                 "0-4 x struct kind x field-type pool (ordinary types; PhantomData / () / [u8; 0] markers next to one real field; "
